@@ -554,6 +554,27 @@ func c15Shapes() []string {
 			out = append(out, head+d+"}")
 		}
 	}
+	// documents the generator refuses for how they USE a component response (the refusal paths build their messages from
+	// both uses): as `default` and under a status, in either order of the operations, through an alias, twice in one operation
+	{
+		use := func(path, method, key, ref string) string {
+			return fmt.Sprintf(`%q:{%q:{"responses":{%q:{"$ref":"#/components/responses/%s"}}}}`, path, method, key, ref)
+		}
+		comps := `"components":{"responses":{"Problem":{"description":"p"},"Alias":{"$ref":"#/components/responses/Problem"}}}`
+		for _, d := range []string{
+			use("/a", "get", "default", "Problem") + "," + use("/b", "get", "404", "Problem"),
+			use("/a", "get", "404", "Problem") + "," + use("/b", "get", "default", "Problem"),
+			use("/a", "get", "default", "Alias") + "," + use("/b", "get", "404", "Problem"),
+			use("/a", "get", "default", "Problem") + "," + use("/b", "get", "404", "Alias"),
+			use("/a", "post", "default", "Problem") + "," + use("/a/{id}", "get", "500", "Problem"),
+			`"/a":{"get":{"responses":{"404":{"$ref":"#/components/responses/Problem"},"410":{"$ref":"#/components/responses/Problem"}}}}`,
+			`"/a":{"get":{"responses":{"404":{"$ref":"#/components/responses/Problem"},"410":{"$ref":"#/components/responses/Alias"}}}}`,
+			`"/a":{"get":{"responses":{"default":{"$ref":"#/components/responses/Problem"},"410":{"$ref":"#/components/responses/Problem"}}}}`,
+			`"/a":{"get":{"responses":{"default":{"$ref":"#/components/responses/Problem"}}},"post":{"responses":{"200":{"$ref":"#/components/responses/Problem"}}}}`,
+		} {
+			out = append(out, head+`"paths":{`+d+`},`+comps+"}")
+		}
+	}
 	// other goag extensions with odd values
 	for _, v := range []string{`""`, `"2006"`, `5`, `null`, `{}`, `"time.RFC3339"`} {
 		out = append(out, head+fmt.Sprintf(`"paths":{"/a":{"get":{"parameters":[{"name":"q","in":"query","schema":{"type":"string","format":"date-time","x-goag-go-time-format":%s}}],%s}}}}`, v, ok))
